@@ -68,7 +68,7 @@ def invalid_box(draw, n):
 @st.composite
 def cases(draw, ctx, layouts):
     desc = draw(files.spec_file_3d(irregular=False, max_voxels=120_000, layouts=layouts,
-                                   versions=["0.1.7", "0.2.1", "0.2.2.dev", "0.2.8", "0.2.8", "1.0.0"]))
+                                   versions=["0.1.3", "0.1.6", "0.1.7", "0.2.1", "0.2.2.dev", "0.2.8", "0.2.8", "1.0.0"]))
     n = desc["shape"]
     bs = desc["blockshape"]
     kind = draw(st.sampled_from(["valid", "valid", "valid", "invalid"]))
